@@ -29,7 +29,8 @@
 (***************************************************************************)
 EXTENDS Integers, Sequences, FiniteSets, FiniteSetsExt, TLC, Json, CSV, IOUtils
 
-CONSTANTS N,          \* variables 1..N
+CONSTANTS MaxRounds,  \* bound on the number of Assume rounds (design runs; 0: plain Solve)
+          N,          \* variables 1..N
           K,          \* at most K constraints in the input (design runs)
           MaxLen,     \* constraints of the input have at most MaxLen literals
           W,          \* weights 1..W
@@ -44,8 +45,10 @@ VARIABLES F,        \* the input: a set of constraints
           trail,    \* sequence of [lit, lvl, reason]; reason = NOREASON for a decision
           confl,    \* NONE or the clause under analysis (a set of literals, all false)
           status,   \* "Indet", "Sat", "Unsat"
-          nlearn, nrestart
-vars == <<F, L, trail, confl, status, nlearn, nrestart>>
+          nlearn, nrestart,
+          asm,      \* the literals assumed for the current round (Assume), a set
+          nround    \* number of Assume rounds so far
+vars == <<F, L, trail, confl, status, nlearn, nrestart, asm, nround>>
 
 NONE == {0}                         \* no clause under analysis
 NOREASON == [w |-> <<>>, d |-> 0]   \* the reason of a decision
@@ -90,7 +93,7 @@ Universe(m) == UNION {ConstrOver(S) : S \in LitSets(m)}
 RECURSIVE UpTo(_)
 UpTo(k) == IF k = 0 THEN {{}} ELSE LET P == UpTo(k - 1) IN P \cup {S \cup {a} : S \in P, a \in Universe(MaxLen)}
 Init == /\ F \in UpTo(K)
-        /\ L = {} /\ trail = <<>> /\ confl = NONE /\ status = "Indet" /\ nlearn = 0 /\ nrestart = 0
+        /\ L = {} /\ trail = <<>> /\ confl = NONE /\ status = "Indet" /\ nlearn = 0 /\ nrestart = 0 /\ asm = {} /\ nround = 0
 
 Forced(c, l) == l \in Lits(c) /\ Undef(l) /\ c.w[l] > Slack(c)
 (* Propagation is complete for clauses and cardinality constraints (every literal they force is on  *)
@@ -104,18 +107,19 @@ NoConfl == \A c \in DB : Slack(c) >= 0
 Propagate(c, l) == /\ status = "Indet" /\ confl = NONE /\ c \in DB
                    /\ Forced(c, l)
                    /\ trail' = Append(trail, [lit |-> l, lvl |-> CurLvl, reason |-> c])
-                   /\ UNCHANGED <<F, L, confl, status, nlearn, nrestart>>
+                   /\ UNCHANGED <<F, L, confl, status, nlearn, nrestart, asm, nround>>
 
 Conflict(c) == /\ status = "Indet" /\ confl = NONE /\ c \in DB
                /\ Slack(c) < 0
                /\ confl' = FalseLits(c)
-               /\ UNCHANGED <<F, L, trail, status, nlearn, nrestart>>
+               /\ UNCHANGED <<F, L, trail, status, nlearn, nrestart, asm, nround>>
 
+AsmDone == \A l \in asm : IsTrue(l)      \* the assumptions of the round are on the trail
 (* the code decides only when propagation is complete and there is no conflict *)
-Decide(l) == /\ status = "Indet" /\ confl = NONE /\ NoUnit /\ NoConfl
+Decide(l) == /\ status = "Indet" /\ confl = NONE /\ NoUnit /\ NoConfl /\ AsmDone
              /\ l \in Lit /\ Undef(l)
              /\ trail' = Append(trail, [lit |-> l, lvl |-> CurLvl + 1, reason |-> NOREASON])
-             /\ UNCHANGED <<F, L, confl, status, nlearn, nrestart>>
+             /\ UNCHANGED <<F, L, confl, status, nlearn, nrestart, asm, nround>>
 
 CurLits == {l \in confl : LvlOf(l) = CurLvl}
 (* what the reason of the true literal t contributes: its literals that were false before t *)
@@ -125,14 +129,14 @@ Explain(l) == /\ status = "Indet" /\ confl # NONE /\ CurLvl > 0
               /\ Cardinality(CurLits) > 1
               /\ l \in CurLits /\ ReasonOf(-l) # NOREASON
               /\ confl' = (confl \ {l}) \cup Antecedent(-l)
-              /\ UNCHANGED <<F, L, trail, status, nlearn, nrestart>>
+              /\ UNCHANGED <<F, L, trail, status, nlearn, nrestart, asm, nround>>
 
 Minimise(l) == /\ status = "Indet" /\ confl # NONE /\ CurLvl > 0
                /\ Cardinality(CurLits) = 1
                /\ l \in confl /\ LvlOf(l) < CurLvl /\ ReasonOf(-l) # NOREASON
                /\ Antecedent(-l) \subseteq confl
                /\ confl' = confl \ {l}
-               /\ UNCHANGED <<F, L, trail, status, nlearn, nrestart>>
+               /\ UNCHANGED <<F, L, trail, status, nlearn, nrestart, asm, nround>>
 
 BackLevel(S, uip) == LET others == S \ {uip} IN
                      IF others = {} THEN 0
@@ -146,27 +150,46 @@ Backjump == /\ status = "Indet" /\ confl # NONE /\ CurLvl > 0 /\ nlearn < MaxLea
                    lc == ClauseOf(confl)
                IN /\ trail' = Append(keep, [lit |-> uip, lvl |-> bt, reason |-> lc])
                   /\ L' = L \cup {lc}
-            /\ confl' = NONE /\ nlearn' = nlearn + 1 /\ UNCHANGED <<F, status, nrestart>>
+            /\ confl' = NONE /\ nlearn' = nlearn + 1 /\ UNCHANGED <<F, status, nrestart, asm, nround>>
 
 Fail    == /\ status = "Indet" /\ confl # NONE /\ CurLvl = 0
-           /\ status' = "Unsat" /\ UNCHANGED <<F, L, trail, confl, nlearn, nrestart>>
+           /\ status' = "Unsat" /\ UNCHANGED <<F, L, trail, confl, nlearn, nrestart, asm, nround>>
 
-Succeed == /\ status = "Indet" /\ confl = NONE /\ NoConfl /\ \A v \in Vars : ~Undef(v)
-           /\ status' = "Sat" /\ UNCHANGED <<F, L, trail, confl, nlearn, nrestart>>
+Succeed == /\ status = "Indet" /\ confl = NONE /\ NoConfl /\ AsmDone /\ \A v \in Vars : ~Undef(v)
+           /\ status' = "Sat" /\ UNCHANGED <<F, L, trail, confl, nlearn, nrestart, asm, nround>>
 
 Restart == /\ status = "Indet" /\ confl = NONE /\ CurLvl > 0 /\ nrestart < MaxRestart
            /\ trail' = SelectSeq(trail, LAMBDA e : e.lvl = 0)
-           /\ nrestart' = nrestart + 1 /\ UNCHANGED <<F, L, confl, status, nlearn>>
+           /\ nrestart' = nrestart + 1 /\ UNCHANGED <<F, L, confl, status, nlearn, asm, nround>>
 
 Forget(c) == /\ status = "Indet" /\ confl = NONE
              /\ c \in L /\ (\A i \in 1..Len(trail) : trail[i].reason # c) /\ L' = L \ {c}
-             /\ UNCHANGED <<F, trail, confl, status, nlearn, nrestart>>
+             /\ UNCHANGED <<F, trail, confl, status, nlearn, nrestart, asm, nround>>
+
+(* ---- rounds under assumptions (Solver.Assume) ------------------------------------------------- *)
+(* Assume(ls) starts a round: the trail is emptied (facts are propagated again from their unit      *)
+(* constraints), the literals of ls are put on the trail at level 0 WITHOUT a reason (AssumeLit):   *)
+(* conflict analysis never resolves them away, so whatever is learned holds without them.  A        *)
+(* conflict at level 0 then means: unsatisfiable under the assumptions of this round only.          *)
+AsmSets(k) == {S \in LitSetsOf(k) : \A l \in S : -l \notin S}      \* (with a parameter: see LitSetsOf)
+NewRound(ls) == /\ confl' = NONE /\ status' = "Indet" /\ trail' = <<>> /\ asm' = ls
+                /\ nround' = nround + 1 /\ UNCHANGED <<F, L, nlearn, nrestart>>
+AssumeLit(l) == /\ status = "Indet" /\ confl = NONE /\ CurLvl = 0
+                /\ l \in asm /\ Undef(l)
+                /\ trail' = Append(trail, [lit |-> l, lvl |-> 0, reason |-> NOREASON])
+                /\ UNCHANGED <<F, L, confl, status, nlearn, nrestart, asm, nround>>
+(* an assumption that the facts already falsify refutes the round *)
+AssumeFails(l) == /\ status = "Indet" /\ confl = NONE /\ CurLvl = 0
+                  /\ l \in asm /\ IsFalse(l)
+                  /\ status' = "Unsat" /\ UNCHANGED <<F, L, trail, confl, nlearn, nrestart, asm, nround>>
 
 Next == \/ \E c \in DB : (\E l \in Lits(c) : Propagate(c, l)) \/ Conflict(c)
         \/ \E l \in Lit : Decide(l)
         \/ (confl # NONE /\ \E l \in confl : Explain(l) \/ Minimise(l))
         \/ Backjump \/ Fail \/ Succeed \/ Restart
         \/ \E c \in L : Forget(c)
+        \/ \E l \in asm : AssumeLit(l) \/ AssumeFails(l)
+        \/ (nround < MaxRounds /\ status # "Indet" /\ \E ls \in AsmSets(2) : NewRound(ls))
 Spec == Init /\ [][Next]_vars
 
 (* ---- invariants ----------------------------------------------------------- *)
@@ -179,9 +202,11 @@ ReasonForces == \A i \in 1..Len(trail) : trail[i].reason # NOREASON =>
                    /\ trail[i].lit \in Lits(trail[i].reason)
                    /\ trail[i].reason.w[trail[i].lit] > SlackAt(trail[i].reason, i - 1)
 TheModel == [v \in Vars |-> v \in Assigned]
-SatSound      == status = "Sat" => TheModel \in ModelsOf(F)
-UnsatSound    == status = "Unsat" => ModelsOf(F) = {}
+SatAsm(a) == \A l \in asm : (l > 0 /\ a[l]) \/ (l < 0 /\ ~a[-l])
+SatSound      == status = "Sat" => TheModel \in ModelsOf(F) /\ SatAsm(TheModel)
+UnsatSound    == status = "Unsat" => {a \in ModelsOf(F) : SatAsm(a)} = {}
 LearnEntailed == \A c \in L : \A a \in ModelsOf(F) : SatAsg(a, c)
+(* the clause under analysis and what is learned hold in every model of F: never only under asm *)
 ConflEntailed == confl # NONE => (\A a \in ModelsOf(F) : SatSet(a, confl)) /\ (\A l \in confl : IsFalse(l))
 (* what makes the analysis well defined: every literal of the clause under analysis is false, and  *)
 (* while more than one belongs to the current level at least one of them has a reason               *)
@@ -198,7 +223,7 @@ RECURSIVE SeqOf(_)
 SeqOf(S) == IF S = {} THEN <<>> ELSE LET x == CHOOSE x \in S : \A y \in S : x <= y IN <<x>> \o SeqOf(S \ {x})
 ConstrRec(c) == LET ls == SeqOf(Lits(c)) IN [lits |-> ls, w |-> [i \in 1..Len(ls) |-> c.w[ls[i]]], d |-> c.d]
 EmitFile == IF "VERIF_EMIT" \in DOMAIN IOEnv THEN IOEnv.VERIF_EMIT ELSE "pbcdcl_emit.ndjson"
-IsInitial == trail = <<>> /\ L = {} /\ status = "Indet" /\ confl = NONE /\ nlearn = 0 /\ nrestart = 0
+IsInitial == trail = <<>> /\ L = {} /\ status = "Indet" /\ confl = NONE /\ nlearn = 0 /\ nrestart = 0 /\ asm = {} /\ nround = 0
 EmitInit == IsInitial => CSVWrite("%1$s", <<ToJson([n |-> N, F |-> {ConstrRec(c) : c \in F}])>>, EmitFile)
 
 (* ---- liveness: the search terminates --------------------------------------- *)
